@@ -490,7 +490,10 @@ def check_c19(res, tier, replay):
             lines.append('m%d CSVBAD %d %s' % (len(lines), 1 if header else 0, binascii.hexlify(raw).decode() or '00'))
         for _ in range(n // 2):
             k = rng.randrange(0, 5)
-            doc = '[' + ','.join('{"a":%d,"b":"%s"}' % (rng.randrange(100), rng.choice(['x', 'y\\n', ''])) for _ in range(k)) + ']'
+            elems = ['{"a":%d,"b":"%s"}' % (rng.randrange(100), rng.choice(['x', 'y\\n', ''])) for _ in range(k)]
+            if rng.random() < 0.2:
+                elems.insert(rng.randrange(0, len(elems) + 1), rng.choice(['null', '7', '"x"', '[]', '{}']))
+            doc = '[' + ','.join(elems) + ']'
             raw = doc.encode()
             r = rng.random()
             if r < 0.5:
@@ -498,12 +501,22 @@ def check_c19(res, tier, replay):
             elif r < 0.6:
                 raw = rng.choice([b'{"a":1}', b'42', b'"str"', b'null', b'', b'[', b'[1,2', b'[{"a":"no"}]', b'[{"a":1}{"a":2}]'])
             lines.append('m%d JSONBAD %s' % (len(lines), binascii.hexlify(raw).decode() or '20'))
-        for _ in range(n // 8):
+        for _ in range(n // 5):
             status = rng.choice([200, 200, 200, 201, 204, 301, 400, 401, 404, 429, 500, 503])
             k = rng.randrange(0, 4)
-            body = ('[' + ','.join('{"date":"2020-01-0%dT00:00:00.000Z","adjClose":%d.5,"adjVolume":%d}' % (j + 1, j, j * 10) for j in range(k)) + ']').encode()
-            if rng.random() < 0.5:
+            elems = ['{"date":"2020-01-0%dT00:00:00.000Z","adjClose":%d.5,"adjVolume":%d}' % (j + 1, j, j * 10) for j in range(k)]
+            r = rng.random()
+            if r < 0.3:
+                # elements of the wrong JSON kind in an otherwise valid array: null, numbers, strings, arrays, empty objects
+                if rng.random() < 0.8:
+                    status = 200
+                for _ in range(rng.randrange(1, 3)):
+                    elems.insert(rng.randrange(0, len(elems) + 1), rng.choice(['null', 'null', '7', '"x"', '[]', '{}', 'true', '{"date":null}', '{"adjClose":"1"}']))
+            body = ('[' + ','.join(elems) + ']').encode()
+            if r > 0.6:
                 body = mutate(rng, body)
+            elif 0.3 <= r < 0.36:
+                body = rng.choice([b'null', b'[null', b'[null]', b'{}', b'', b'[[', b'"[]"'])
             lines.append('m%d TIINGO %d %s' % (len(lines), status, binascii.hexlify(body).decode() or '20'))
     go = vlib.run_go(lines)
     # a crash (panic in a library goroutine) loses a whole chunk: re-run unanswered cases one by one
